@@ -32,7 +32,39 @@ def sh(cmd, cwd, timeout=1800, env=ENV):
     return r.returncode, r.stdout
 
 
+def recheck(name):
+    """--recheck <seeded-dir-name>: re-runs only the property's quick check
+    against an already confirmed seeded change and refreshes its meta.json."""
+    d = os.path.join(V, "seeded", name)
+    meta = json.load(open(os.path.join(d, "meta.json")))
+    pid = meta["property"]
+    wt = "/tmp/ev-re-%s-%d" % (name, os.getpid())
+    subprocess.check_call([os.path.join(V, "tools", "mkwt.sh"), wt], stdout=subprocess.DEVNULL, stderr=subprocess.DEVNULL)
+    try:
+        rc, out = sh("git apply --whitespace=nowarn %s" % os.path.join(d, "patch.diff"), wt)
+        if rc != 0:
+            print(name, "PATCH-DOES-NOT-APPLY", out[-300:])
+            return
+        t0 = time.time()
+        rc, out = sh("./check %s quick" % pid, V, timeout=3600, env=dict(os.environ, VERIF_REPO=wt))
+        caught = rc == 1 and "VIOLATION property=%s" % pid in out
+        classes = sorted(set(re.findall(r"^  class=(\S.*?)(?: op | after |:| \w+=|$)", out, re.M)))[:8]
+        classes = sorted(set(c[:90] for c in classes))
+        cr = meta.setdefault("check_result", {})
+        cr.update({"quick_exit": rc, "caught_by_quick": caught, "quick_wall_s": round(time.time() - t0, 1), "classes": classes})
+        if caught:
+            cr.pop("note", None)
+        json.dump(meta, open(os.path.join(d, "meta.json"), "w"), indent=1)
+        print("%-12s caught=%s rc=%d %.0fs %s" % (name, caught, rc, time.time() - t0, classes[:3]))
+    finally:
+        subprocess.call(["git", "-C", "/repo", "worktree", "remove", "--force", wt], stdout=subprocess.DEVNULL, stderr=subprocess.DEVNULL)
+
+
 def main():
+    if sys.argv[1] == "--recheck":
+        for name in sys.argv[2:]:
+            recheck(name)
+        return
     pid, n = sys.argv[1], sys.argv[2]
     src = "/tmp/mut/%s-out" % pid
     if "--src" in sys.argv:
